@@ -264,6 +264,20 @@ def replay_spaces(info):
             if any(d != want_def for d in defs) or any(c != want_call for c in calls) or len(defs) != 4 or len(calls) < 3:
                 return (f"--space-after-function-names {mode} --call-parentheses {cp}: {out!r}",
                         {"source": src, "mode": mode, "call_parentheses": cp, "output": out})
+    # calls whose parentheses stay although the single string / table argument could do without: an index or a method call follows, or a
+    # comment sits inside the parentheses
+    src3 = ('local a = lib.describe("widget").name\nlocal b = lib.load({ a = 1 }):run()\nlocal c = lib.describe "widget".name\nlocal d = lib.load { a = 1 }:run()\n'
+            'show("x" --[[c]])\nshow({ 1 } --[[c]])\nlocal e = lib.describe("widget")[1]\n')
+    for cp in ("Always", "None", "Input", "NoSingleString", "NoSingleTable"):
+        for mode in ("Never", "Definitions", "Calls", "Always"):
+            rc, out, err = common.run_stylua(binp, src3, ["--space-after-function-names", mode, "--call-parentheses", cp])
+            if rc != 0:
+                continue
+            calls = re.findall(r"(?:lib\.describe|lib\.load|show|:run)( ?)\(", out)
+            want_call = " " if mode in ("Always", "Calls") else ""
+            if any(c != want_call for c in calls) or len(calls) < 5:
+                return (f"--space-after-function-names {mode} --call-parentheses {cp}: {out!r}",
+                        {"source": src3, "mode": mode, "call_parentheses": cp, "output": out})
     # headers whose parameter list is laid out over several lines (too wide, or a comment on a parameter)
     src2 = ('local function connect(first_parameter_name, second_parameter_name, third_parameter_name) end\n'
             'function Object.nested:method(first_parameter_name, second_parameter_name, third_parameter_name) end\n'
@@ -383,6 +397,15 @@ def run(ses, rep):
         role = {"obligation": kind, **{k: v_ for k, v_ in info.items() if k in ("mode", "input", "arg", "obscure", "style", "fn")}}
         status = rep.violation(role, {"what": what, "observed": v, "kind": kind, "info": info, **rec})
         rep.add(oid, status, v)
+
+
+def fallback(rep):
+    """kernels undecided: the option replays are run over all option values; only a failing concrete oracle is reported"""
+    for kind, fn_ in (("spaces", replay_spaces), ("quote-wiring", replay_quote_wiring)):
+        v, rec = fn_({})
+        if v:
+            rep.add(f"battery/{kind}", rep.violation({"obligation": "battery-after-undecided-kernel", "scenario": kind}, {"what": "kernel undecided; option replay", "observed": v,
+                                                                                                                     "kind": kind, "info": {}, **rec}), v)
 
 
 def replay(path):
